@@ -43,6 +43,9 @@ for f in sorted(glob.glob(os.path.join(V, "seeded", "*", "meta.json"))):
 nvalid = sum(1 for m in seeded if m.get("valid"))
 ncaught = sum(1 for m in seeded if m.get("caught"))
 missed = [m["id"] for m in seeded if m.get("valid") and not m.get("caught")]
+obsolete = [m["id"] for m in seeded if m.get("obsolete")]
+w4 = [m for m in seeded if "-w4-" in m["id"]]
+w4first = sum(1 for m in w4 if m.get("first_verdict") == "caught")
 sec = r'''
 ---------------------------------------------------------------------------------------------------
 
@@ -170,7 +173,7 @@ went through their name map.  Each would need the same edit in five query module
 that the repository's tests still pass with the change and that the demo fails with / passes
 without it; `tools/seeded.py detect <id>` runs the property's quick check against a scratch
 worktree carrying the change; `seeded/README.md` lists every change with the current verdict.
-Currently ''' + "%d changes, %d valid, %d caught" % (len(seeded), nvalid, ncaught) + (" (missed: %s)" % ", ".join(missed) if missed else "") + r'''.
+Currently ''' + "%d changes, %d valid, %d caught" % (len(seeded), nvalid, ncaught) + (" (missed: %s)" % ", ".join(missed) if missed else "") + (" (no longer property-breaking after a later `fix:` and therefore not valid any more: %s)" % ", ".join(obsolete) if obsolete else "") + r'''.
 
 * Wave 1 (18 changes; C01, C02, C08-C12, C14, C19): 14 caught at once.  The misses led to S9 (definition
   reshaped after it was instanced, then re-pointed), skeleton K10 (wire-only cell instanced twice), the
@@ -189,6 +192,20 @@ Currently ''' + "%d changes, %d valid, %d caught" % (len(seeded), nvalid, ncaugh
   instantiation-graph family, file-level faults and the independent-reader oracle for re-targeted references
   in C15, the method form and nameless netlists in C16, cross-scope names in C17, the .conn star, 12-input
   .names and lone-backslash continuation in C18, and add-connection mutations in C20.
+* Wave 4 (''' + "%d changes, all 20 properties; three kinds asked for: index/ordering slips in loops, bookkeeping kept on the wrong object or at the wrong time, slips on rarely taken branches): %d caught at once" % (len(w4), w4first) + r'''.
+  The misses led to: refused calls in C01 (S8 and the naming scopes) and `set_top_instance` / cable reorder / bulk
+  cable removal in the scenarios (two ops had been defined but used by no scenario); base E9 (dependency
+  triangles among cells and among libraries, a bus whose name starts with a digit) and names that are illegal
+  in one position only in C03; vector comma lists and comment-in-comment text in C06; width-3 expressions
+  naming a bit twice in C04; clones of EDIF-policy netlists with exact lookups by name *and* identifier in every
+  scope in C07; a second uniquify round from a non-initial state in C08; skeletons K11 (depth 4) and K12 (a
+  hierarchical cell without ports); the mixed-policy scenario N-MIX-EDIF (an EDIF-read netlist extended with
+  elements created under DEFAULT) in C10/C14; several-roots queries, all-unnamed siblings and edits on the deep
+  skeletons in C11; a port with base index 4 and popped naming keys in C13; parent-first API sources under both
+  set orders in C16; colliding cells in a non-last library in C17; base B6 (.conn on bit 1 of a bus port, a cycle
+  of .conn) in C18; single-hook and all-but-one listeners in C19; dropped properties and an EDIF netlist extended
+  through the API in C20.  Two genuine defects surfaced on the way (set_top_instance renaming the definition,
+  `_x`-style bus names not surviving the EDIF round trip) and were repaired.
 '''
 path = os.path.join(V, "DESIGN.md")
 s = open(path).read()
